@@ -29,6 +29,16 @@ pub fn run_cli(cli: &str, args: &[String]) -> CliOut {
     }
 }
 
+pub fn run_cli_env(cli: &str, args: &[String], env: &[(&str, &str)]) -> CliOut {
+    let mut c = Command::new(cli);
+    c.args(args).env_remove("RUST_LOG").env("RUST_BACKTRACE", "0");
+    for (k, v) in env {
+        c.env(k, v);
+    }
+    let o = c.output().unwrap_or_else(|e| machinery_error(&format!("cannot run the CLI binary: {}", e)));
+    CliOut { code: o.status.code(), stdout: String::from_utf8_lossy(&o.stdout).to_string(), stderr: String::from_utf8_lossy(&o.stderr).to_string() }
+}
+
 /// one printed interpretation: (label, value) in printed order; None if the line is not an interpretation line
 pub fn parse_line(line: &str) -> Option<Vec<(String, u8)>> {
     // format: `T(a) F(b) u(c) ` - labels may contain blanks and brackets, so split on the pattern ") " followed by
